@@ -34,7 +34,10 @@ def strategy(shard):
     @st.composite
     def case(draw):
         ncand = draw(st.integers(2, 6))
-        cands = sa.CANDS[:ncand]
+        cands = list(sa.CANDS[:ncand])
+        if draw(st.integers(0, 4)) == 0:
+            # the write-in line is a candidate of the contest (the Hart reader lists it under this name): a contestant like any other
+            cands[draw(st.integers(0, ncand - 1))] = "WRITE_IN"
         if kind == "super":
             winners = [draw(st.sampled_from(cands))]
             q = draw(st.integers(2, 12))
